@@ -317,4 +317,226 @@ theorem dispatch_conforms {ev : Ev} (hev : Routable ev) (o : Oracle) (fuel : Nat
       rw [h3, hnc, ← f1]
       simpa using sp2
 
+/-! ### updatePath -/
+
+mutual
+theorem chf_eq (f : Id) : (t : STree) → childHasFocus f t = (chain f t).map List.reverse
+  | .node i w h ch => by
+    simp only [childHasFocus, chain]
+    split
+    · simp
+    · rw [chfL_eq f ch]
+      cases chainL f ch <;> simp
+theorem chfL_eq (f : Id) : (l : List Kid) → childHasFocusL f l = (chainL f l).map List.reverse
+  | [] => by simp [childHasFocusL, chainL]
+  | (c, r, z, t) :: rest => by
+    simp only [childHasFocusL, chainL]
+    rw [chf_eq f t, chfL_eq f rest]
+    cases chain f t <;> simp
+end
+
+mutual
+theorem chain_ne_nil (f : Id) : (t : STree) → ∀ p, chain f t = some p → p ≠ []
+  | .node i w h ch => by
+    intro p hp
+    simp only [chain] at hp
+    split at hp
+    · cases hp; simp
+    · cases hc : chainL f ch with
+      | none => simp [hc] at hp
+      | some q => simp [hc] at hp; subst hp; simp
+theorem chainL_ne_nil (f : Id) : (l : List Kid) → ∀ p, chainL f l = some p → p ≠ []
+  | [] => by intro p hp; simp [chainL] at hp
+  | (c, r, z, t) :: rest => by
+    intro p hp
+    simp only [chainL] at hp
+    cases hc : chain f t with
+    | none => rw [hc] at hp; exact chainL_ne_nil f rest p hp
+    | some q => rw [hc] at hp; cases hp; exact chain_ne_nil f t _ hc
+end
+
+theorem updatePath_found (o : Oracle) (fuel : Nat) (s : St) (t : STree) (p : List Id)
+    (h : chain s.focused t = some p) :
+    updatePath o fuel s t = { s with path := expectedPath s.root t s.focused } := by
+  have hne := chain_ne_nil _ _ _ h
+  simp only [updatePath, chf_eq, h, Option.map_some, updatePathFinish, expectedPath]
+  cases p with
+  | nil => exact absurd rfl hne
+  | cons a r =>
+    by_cases hr : s.root = t.id
+    · simp [hr]
+    · simp [hr]
+
+theorem focusWidget_ext {ev : Ev} (hev : Routable ev) (o : Oracle) (fuel : Nat) (s : St) (w : Id) :
+    Ext ev s (focusWidget o fuel s w) := by
+  cases fuel with
+  | zero => exact Ext.stuck ev s
+  | succ n =>
+    have := ext_execAtom hev o (handleCommand o n) (fun s c => ext_handleCommand hev o n s c) s (.focus w)
+    simpa [execAtom, focusWidget] using this
+
+theorem updatePath_notfound (o : Oracle) (fuel : Nat) (s : St) (t : STree)
+    (h : chain s.focused t = none) :
+    (updatePath o fuel s t).path = [s.root] ∧
+    (updatePath o fuel s t).trace = (focusWidget o fuel { s with path := [] } s.root).trace ∧
+    (updatePath o fuel s t).focused = (focusWidget o fuel { s with path := [] } s.root).focused := by
+  have hx := focusWidget_ext (ev := .init) ⟨by simp, by simp⟩ o fuel { s with path := [] } s.root
+  simp only [updatePath, chf_eq, h, Option.map_none, updatePathFinish]
+  have hp := hx.path
+  have hr := hx.root
+  simp only at hp hr
+  simp [hp, hr]
+
+
+/-! ### commands without focus atoms; focus notifications -/
+
+def NoFocusAtoms (c : Cmd) : Prop := ∀ a ∈ c.flatten, ∀ x, a ≠ Atom.focus x
+
+/-- No widget answers a FocusOut notification with a (possibly nested) focus command. -/
+def NoRefocusOnOut (o : Oracle) : Prop := ∀ w ph k, NoFocusAtoms (o.h w .focusOut ph k)
+
+def effsOf (l : List Atom) : List Entry := (l.filterMap effOfAtom).map Entry.eff
+
+theorem atom_beq (a b : Atom) : (a == b) = decide (a = b) := rfl
+
+/-- Executing focus-free atoms: exactly their effects, once each, in order; flags are or-ed. -/
+theorem foldl_nofocus (hc : St → Cmd → St) (o : Oracle) (l : List Atom)
+    (hl : ∀ a ∈ l, ∀ x, a ≠ Atom.focus x) (s : St) :
+    l.foldl (execAtom hc o) s =
+      { s with
+        redraw := s.redraw || l.any (fun a => a == .redraw || a == .debug)
+        refresh := s.refresh || l.any (· == .refresh)
+        quit := s.quit || l.any (· == .quit)
+        consume := s.consume || l.any (· == .consume)
+        debug := s.debug || l.any (· == .debug)
+        trace := s.trace ++ effsOf l } := by
+  induction l generalizing s with
+  | nil => simp [effsOf]
+  | cons a r ih =>
+    have hr : ∀ a ∈ r, ∀ x, a ≠ Atom.focus x := fun a ha => hl a (by simp [ha])
+    rw [List.foldl_cons, ih hr]
+    cases a with
+    | focus w => exact absurd rfl (hl (.focus w) (by simp) w)
+    | redraw => simp [execAtom, effsOf, effOfAtom, atom_beq]
+    | refresh => simp [execAtom, effsOf, effOfAtom, atom_beq]
+    | quit => simp [execAtom, effsOf, effOfAtom, atom_beq]
+    | consume => simp [execAtom, effsOf, effOfAtom, atom_beq]
+    | debug => simp [execAtom, effsOf, effOfAtom, atom_beq]
+    | other k => simp [execAtom, effsOf, effOfAtom, atom_beq]
+
+theorem focusRun_effs (f : Id) (pend : Bool) (t r : List Entry) (ht : ∀ e ∈ t, ∃ x, e = Entry.eff x) :
+    focusRun f pend (t ++ r) = focusRun f pend r := by
+  induction t with
+  | nil => rfl
+  | cons e t ih =>
+    obtain ⟨x, rfl⟩ := ht e (by simp)
+    have := ih (fun e he => ht e (by simp [he]))
+    simpa [focusRun] using this
+
+theorem focusRun_append (f f' : Id) (a b : List Entry) (h : focusRun f false a = some f') :
+    focusRun f false (a ++ b) = focusRun f' false b := by
+  suffices H : ∀ (a : List Entry) (f : Id) (pend : Bool), focusRun f pend a = some f' →
+      focusRun f pend (a ++ b) = focusRun f' false b from H a f false h
+  intro a
+  induction a with
+  | nil =>
+    intro f pend h
+    cases pend
+    · simp [focusRun] at h; subst h; rfl
+    · simp [focusRun] at h
+  | cons e a ih =>
+    intro f pend h
+    cases e with
+    | draw => simpa [focusRun] using ih f pend (by simpa [focusRun] using h)
+    | eff x => simpa [focusRun] using ih f pend (by simpa [focusRun] using h)
+    | call w ev ph =>
+      cases ev with
+      | focusOut =>
+        simp only [focusRun, List.cons_append] at h ⊢
+        split at h
+        · rename_i hcond
+          rw [if_pos hcond]; exact ih f true h
+        · cases h
+      | focusIn =>
+        simp only [focusRun, List.cons_append] at h ⊢
+        split at h
+        · rename_i hcond
+          rw [if_pos hcond]; exact ih w false h
+        · cases h
+      | key k => simpa [focusRun] using ih f pend (by simpa [focusRun] using h)
+      | custom k => simpa [focusRun] using ih f pend (by simpa [focusRun] using h)
+      | init => simpa [focusRun] using ih f pend (by simpa [focusRun] using h)
+      | mouse c r => simpa [focusRun] using ih f pend (by simpa [focusRun] using h)
+      | mouseEnter => simpa [focusRun] using ih f pend (by simpa [focusRun] using h)
+      | mouseLeave => simpa [focusRun] using ih f pend (by simpa [focusRun] using h)
+
+/-- What the focus theorems need of the re-entrant command handler. -/
+structure FocusGood (hc : St → Cmd → St) : Prop where
+  pairs : ∀ s c, ∃ t, (hc s c).trace = s.trace ++ t ∧ focusRun s.focused false t = some (hc s c).focused
+  quiet : ∀ s c, NoFocusAtoms c → ∃ t, (hc s c).trace = s.trace ++ t ∧ (∀ e ∈ t, ∃ x, e = Entry.eff x)
+
+theorem effsOf_eff (l : List Atom) : ∀ e ∈ effsOf l, ∃ x, e = Entry.eff x := by
+  intro e he
+  simp only [effsOf, List.mem_map] at he
+  obtain ⟨x, _, rfl⟩ := he
+  exact ⟨x, rfl⟩
+
+theorem focus_execAtom (o : Oracle) (hno : NoRefocusOnOut o) (hc : St → Cmd → St) (hg : FocusGood hc)
+    (s : St) (a : Atom) :
+    ∃ t, (execAtom hc o s a).trace = s.trace ++ t ∧
+      focusRun s.focused false t = some (execAtom hc o s a).focused := by
+  cases a with
+  | redraw => exact ⟨[.eff .redraw], rfl, rfl⟩
+  | refresh => exact ⟨[.eff .refresh], rfl, rfl⟩
+  | quit => exact ⟨[.eff .quit], rfl, rfl⟩
+  | consume => exact ⟨[.eff .consume], rfl, rfl⟩
+  | debug => exact ⟨[.eff .debug], rfl, rfl⟩
+  | other k => exact ⟨[.eff (.other k)], rfl, rfl⟩
+  | focus w =>
+    simp only [execAtom, focusWidgetWith]
+    split
+    · exact ⟨[], by simp, rfl⟩
+    · rename_i hne
+      obtain ⟨t1, ht1, q1⟩ := hg.quiet (Model.Vxfw.call o s s.focused .focusOut .target).1
+        (Model.Vxfw.call o s s.focused .focusOut .target).2 (hno _ _ _)
+      generalize hc (Model.Vxfw.call o s s.focused .focusOut .target).1
+        (Model.Vxfw.call o s s.focused .focusOut .target).2 = s2 at ht1 ⊢
+      have htr1 : (Model.Vxfw.call o s s.focused .focusOut .target).1.trace =
+          s.trace ++ [.call s.focused .focusOut .target] := rfl
+      rw [htr1] at ht1
+      obtain ⟨t2, ht2, p2⟩ := hg.pairs
+        (Model.Vxfw.call o { s2 with focused := w, trace := s2.trace ++ [.eff (.focusSet w)] } w .focusIn .target).1
+        (Model.Vxfw.call o { s2 with focused := w, trace := s2.trace ++ [.eff (.focusSet w)] } w .focusIn .target).2
+      refine ⟨.call s.focused .focusOut .target :: (t1 ++ (.eff (.focusSet w) :: .call w .focusIn .target :: t2)), ?_, ?_⟩
+      · rw [ht2]
+        simp [Model.Vxfw.call, ht1]
+      · simp only [focusRun, Bool.not_false, Bool.true_and, decide_true, if_true]
+        rw [focusRun_effs _ _ _ _ q1]
+        simp only [focusRun, if_true]
+        exact p2
+
+theorem focus_foldl (o : Oracle) (hno : NoRefocusOnOut o) (hc : St → Cmd → St) (hg : FocusGood hc)
+    (l : List Atom) (s : St) :
+    ∃ t, (l.foldl (execAtom hc o) s).trace = s.trace ++ t ∧
+      focusRun s.focused false t = some (l.foldl (execAtom hc o) s).focused := by
+  induction l generalizing s with
+  | nil => exact ⟨[], by simp, rfl⟩
+  | cons a r ih =>
+    obtain ⟨t1, ht1, p1⟩ := focus_execAtom o hno hc hg s a
+    obtain ⟨t2, ht2, p2⟩ := ih (execAtom hc o s a)
+    refine ⟨t1 ++ t2, ?_, ?_⟩
+    · rw [List.foldl_cons, ht2, ht1, List.append_assoc]
+    · rw [focusRun_append _ _ _ _ p1]; exact p2
+
+theorem focusGood_handleCommand (o : Oracle) (hno : NoRefocusOnOut o) (fuel : Nat) :
+    FocusGood (handleCommand o fuel) := by
+  induction fuel with
+  | zero =>
+    exact ⟨fun s c => ⟨[], by simp [handleCommand], rfl⟩, fun s c _ => ⟨[], by simp [handleCommand], by simp⟩⟩
+  | succ n ih =>
+    refine ⟨fun s c => focus_foldl o hno _ ih _ s, fun s c hnf => ?_⟩
+    refine ⟨effsOf c.flatten, ?_, effsOf_eff _⟩
+    simp only [handleCommand]
+    rw [foldl_nofocus _ o _ hnf s]
+
 end VaxisModel.Lemmas.Vxfw
